@@ -16,3 +16,5 @@ open GV.ScalarMul
 #print axioms C03_decode_encode
 #print axioms C03_batchWith
 #print axioms C03_jointPanics_iff
+#print axioms C03_alias_by_value
+#print axioms C03_alias_irrelevant
